@@ -49,8 +49,16 @@ func newHEnvLimits(limitInvariant bool) *hEnv {
 		MinSwapAmount: verifIntIn("minSwap", zero, w), MaxSwapAmount: verifIntIn("maxSwap", zero, w),
 		MinBlockLock: types.MinTimeLock, MaxBlockLock: types.MaxTimeLock,
 	}
+	if !limitInvariant {
+		// the consumers of ANY accepted parameter set: every figure arbitrary (absent, negative, huge);
+		// only the repository's own validation narrows them
+		e.asset.SupplyLimit.Limit, e.asset.SupplyLimit.TimeBasedLimit = verifIntAny("anyLimit"), verifIntAny("anyTimeLimit")
+		e.asset.FixedFee, e.asset.MinSwapAmount, e.asset.MaxSwapAmount = verifIntAny("anyFixedFee"), verifIntAny("anyMinSwap"), verifIntAny("anyMaxSwap")
+	}
 	p := types.Params{AssetParams: []types.AssetParam{e.asset}}
-	verifAssume(p.Validate() == nil)
+	var vErr error
+	vPanicked, _ := verifCatch(func() { vErr = p.Validate() })
+	verifAssume(!vPanicked && vErr == nil)
 	if err := e.k.SetParams(e.ctx, p); err != nil {
 		verifFail("validated params rejected")
 	}
